@@ -623,9 +623,6 @@ package graphql
 //@ func getFieldDef
 //@   trusted
 //@   assigns nothing
-//@ func andPredicates
-//@   trusted
-//@   assigns nothing
 //@ func planFragmentMatches
 //@   trusted
 //@   assigns nothing
@@ -651,7 +648,7 @@ package graphql
 //@   at[C01] call andPredicates#1: assert arg0 == containerPred && arg1 == lastresult("andPredicates")
 //@   at[C01] call andPredicates#4: assert arg0 == parentPred && arg1 == pred
 //@   at[C01] call andPredicates#3: assert arg0 == containerPred && arg1 == lastresult("andPredicates")
-//@   at[C01] call append#2: assert arg0 == sp.fields[keyed[responseKey]].astPredicates && arg1 == occurrencePred && occurrencePred == lastresult("andPredicates")
+//@   at[C01] call append#2: assert arg0 == sp.fields[keyed[responseKey]].astPredicates && len(arg1) == 1 && arg1[0] == occurrencePred && occurrencePred == lastresult("andPredicates")
 //@   at[C01] call orPredicates: assert arg0 == sp.fields[keyed[responseKey]].skipPredicate && arg1 == occurrencePred
 //@   loop[C01] 1 ensures typeis(iSelection, "*ast.Field") && calls("getFieldDef") == atloop(1, calls("getFieldDef")) && calls("andPredicates") > atloop(1, calls("andPredicates")) ==> calls("orPredicates") == atloop(1, calls("orPredicates")) + 1 && calls("append") == atloop(1, calls("append")) + 2
 // enclosing conditions are threaded through inline fragments and (as the gate) through named fragments
